@@ -35,6 +35,13 @@ def run(ctx):
     ctx.guarded("R09.3", "pairing", lambda: pairing(ctx, "R09.3"))
     ctx.guarded("R09.4", "hangup", lambda: hangup(ctx, "R09.4"))
     ctx.guarded("R09.5", "closed-enqueue", lambda: closed_enqueue(ctx, "R09.5"))
+    ctx.rule("R09.7", "an I/O failure closes: when try_write reports ConnectionClosed/StreamWriteError, or try_read reports ConnectionClosed, the connection state becomes Closed (so it can never stay AwaitingOutgoing with nothing to write)")
+    ctx.guarded("R09.7", "failure-closes", lambda: failure_closes(ctx, "R09.7"))
+    ctx.rule("R09.8", "Closed is absorbing: respond() re-arms a connection only after testing that it is AwaitingIncoming")
+    ctx.guarded("R09.8", "closed-absorbing", lambda: closed_absorbing(ctx, "R09.8"))
+    ctx.rule("R09.9", "only an Interrupted write is retried: every other write failure discards the output and closes (C06 writer rules), so flushing cannot spin on a client that stopped reading")
+    from .c06 import paths as writer_paths
+    ctx.guarded("R09.9", "writer", lambda: writer_paths(ctx, "R09.9", only={"R06.2", "R06.3"}))
     ctx.rule("R09.6", "every accepted stream that is served was switched to non-blocking mode first; read()/write() make one try_read/try_write each")
     ctx.guarded("R09.6", "nonblocking", lambda: nonblocking(ctx, "R09.6"))
     ctx.guarded("R09.6", "single-io", lambda: single_io(ctx, "R09.6"))
@@ -344,3 +351,54 @@ def single_io(ctx, rule):
         sites = [bb for bb, t in fn.calls_to(callee)]
         cyc = fn.cyclic_blocks()
         ctx.ob(rule, "%s|one-%s" % (w, callee.split("::")[-1]), len(sites) == 1 and sites[0] not in cyc, "ClientConnection::%s makes exactly one %s call, outside any cycle (sites %s): one notification, one non-blocking I/O attempt" % (w, callee.split("::")[-1], sites), fn.loc(sites[0]) if sites else fn.loc(0))
+
+
+def failure_closes(ctx, rule):
+    facts = ctx.facts
+    cd = {n: d for d, n in facts.variant_discr("common::ConnectionError").items()}
+    for w, callee, closing in (("write", conn.TRY_WRITE, ("ConnectionClosed", "StreamWriteError")), ("read", conn.TRY_READ, ("ConnectionClosed",))):
+        fn, lv = leaves(ctx, CC + w)
+        seen = set()
+        for lf in lv:
+            if lf.kind != "return":
+                continue
+            # which error variants of the callee's result can this path be handling?
+            poss = None
+            for (t, c, _b) in lf.conds:
+                x = look(t[1]) if t[0] == "discr" else None
+                if x is not None and x[0] == "field" and x[1][0] == "downcast" and x[1][2] == "Err" and is_call(look(x[1][1]), callee):
+                    cur = {n for n, d in cd.items() if (d == c[1] if c[0] == "eq" else d not in c[1])}
+                    poss = cur if poss is None else (poss & cur)
+            if poss is None:
+                continue
+            var = "other:" + ",".join(sorted(poss))
+            closed = any(e[0] == "assign" and e[3] == "(*_1).state" and srv.state_const(facts, e[4]) == "Closed" for e in lf.events)
+            names = var[6:].split(",") if var.startswith("other:") else [var]
+            for nm in names:
+                if nm in closing:
+                    seen.add(nm)
+                    ctx.ob(rule, "%s|%s->Closed" % (w, nm), closed, "ClientConnection::%s: %s from %s marks the connection Closed" % (w, nm, callee.split("::")[-1]), fn.loc(lf.bb))
+        ctx.ob(rule, "%s|covered" % w, set(closing) <= seen, "closing outcomes of %s with a path: %s (need %s)" % (callee.split("::")[-1], sorted(seen), sorted(closing)), fn.loc(0))
+
+
+def closed_absorbing(ctx, rule):
+    facts = ctx.facts
+    n = 0
+    for fname in (srv.RESPOND, srv.ENQ, srv.REQUESTS, srv.FLUSH, CC + "enqueue_response"):
+        fn, lv = leaves(ctx, fname)
+        for lf in lv:
+            for i, e in enumerate(lf.events):
+                if e[0] == "assign" and e[5] is not None and srv.is_state_place(e[5]):
+                    v = srv.state_const(facts, e[4])
+                    if v in (None, "Closed"):
+                        continue
+                    n += 1
+                    known = None
+                    for ev in lf.events[:i]:
+                        if ev[0] == "cond":
+                            st = state_test(facts, ev[3], ev[4])
+                            if st:
+                                known = st[1] if known is None else (known & st[1])
+                    ok = known is not None and "Closed" not in known
+                    ctx.ob(rule, "%s|%s-only-from-open" % (fname.split("::")[-1], v), ok, "%s(): state := %s only after the state was tested and cannot be Closed (known: %s)" % (fname.split("::")[-1], v, sorted(known) if known else None), fn.loc(e[1]))
+    ctx.ob(rule, "floor", n >= 1, "%d server-level re-arming assignment(s) inspected (floor 1)" % n)
